@@ -23,12 +23,21 @@ Proof.
   assert (existsb (is_kind k) s = true) by (apply existsb_exists; eauto). congruence.
 Qed.
 
+(* no keyword-only parameter without default <-> the list signature_info collects is empty *)
+Lemma kwonly_nil s :
+  match map pname (filter (fun p => is_kind KO p && negb (has_default p)) s) with [] => true | _ => false end
+  = no_required_kwonly s.
+Proof.
+  unfold no_required_kwonly. induction s as [|p s IH]; [reflexivity|]. cbn [filter forallb].
+  destruct (is_kind KO p) eqn:Ek, (has_default p) eqn:Ed; cbn [andb negb orb map]; auto.
+Qed.
+
 (* positional calls *)
 Theorem sound_pos s n :
-  accept (signature_info s) (ByPos n) = true -> no_required_kwonly s = true ->
-  py_bind s (ByPos n) = true.
+  accept (signature_info s) (ByPos n) = true -> py_bind s (ByPos n) = true.
 Proof.
-  cbn [accept signature_info min_args max_args py_bind]. intros H Hk. rewrite Hk, andb_true_r.
+  cbn [accept signature_info min_args max_args required_kwonly py_bind]. intros H.
+  apply andb_true_iff in H as [H Hk]. rewrite kwonly_nil in Hk. rewrite Hk, andb_true_r.
   apply andb_true_iff in H as [H1 H2]. apply negb_true_iff, Nat.ltb_ge in H1.
   apply andb_true_iff; split; [now apply Nat.leb_le|].
   destruct (has VP s); [apply orb_true_r|]. apply negb_true_iff, Nat.ltb_ge in H2.
@@ -38,8 +47,9 @@ Qed.
 Theorem exact_pos s n :
   py_bind s (ByPos n) = true -> accept (signature_info s) (ByPos n) = true.
 Proof.
-  cbn [accept signature_info min_args max_args py_bind]. intros H.
-  apply andb_true_iff in H as [H _]. apply andb_true_iff in H as [H1 H2]. apply Nat.leb_le in H1.
+  cbn [accept signature_info min_args max_args required_kwonly py_bind]. intros H.
+  apply andb_true_iff in H as [H Hk]. rewrite kwonly_nil, Hk, andb_true_r.
+  apply andb_true_iff in H as [H1 H2]. apply Nat.leb_le in H1.
   apply andb_true_iff; split; [apply negb_true_iff, Nat.ltb_ge; lia|].
   destruct (has VP s); auto. rewrite orb_false_r in H2. apply Nat.leb_le in H2.
   apply negb_true_iff, Nat.ltb_ge. lia.
@@ -50,32 +60,27 @@ Lemma accept_names_no_po s g : accept (signature_info s) (ByName g) = true -> ha
 Proof. cbn. destruct (has PO s); [discriminate|reflexivity]. Qed.
 
 Theorem sound_names s g :
-  accept (signature_info s) (ByName g) = true -> no_required_kwonly s = true ->
-  py_bind s (ByName g) = true.
+  accept (signature_info s) (ByName g) = true -> py_bind s (ByName g) = true.
 Proof.
-  intros H Hk. pose proof (accept_names_no_po s g H) as Hpo.
+  intros H. pose proof (accept_names_no_po s g H) as Hpo.
   cbn [accept signature_info other_names required_names] in H. rewrite Hpo in H.
   cbn [py_bind]. apply andb_true_iff. split.
   - apply forallb_forall. intros p Hp.
     assert (Hreq : forallb (fun r => mem r g)
-              (map pname (filter (fun p => is_kind PK p && negb (has_default p)) s)) = true).
+              (map pname (filter (fun p => (is_kind PK p || is_kind KO p) && negb (has_default p)) s)) = true).
     { destruct (has VK s); apply andb_true_iff in H as [H _]; exact H. }
-    rewrite forallb_forall in Hreq. unfold no_required_kwonly in Hk. rewrite forallb_forall in Hk.
-    specialize (Hk p Hp). pose proof (has_false_kind PO s p Hpo Hp) as Hnp.
+    rewrite forallb_forall in Hreq. pose proof (has_false_kind PO s p Hpo Hp) as Hnp.
     destruct (pk p) eqn:Ek; auto.
     + unfold is_kind in Hnp. rewrite Ek in Hnp. discriminate.
     + destruct (has_default p) eqn:Ed; auto. cbn [orb]. apply Hreq. apply in_map.
       apply filter_In. split; auto. unfold is_kind. now rewrite Ek, Ed.
-    + unfold is_kind in Hk. rewrite Ek in Hk. cbn in Hk. now rewrite Hk.
+    + destruct (has_default p) eqn:Ed; auto. cbn [orb]. apply Hreq. apply in_map.
+      apply filter_In. split; auto. unfold is_kind. now rewrite Ek, Ed.
   - apply forallb_forall. intros x Hx. destruct (has VK s); [reflexivity|]. cbn [orb].
     apply andb_true_iff in H as [_ H]. rewrite forallb_forall in H. specialize (H x Hx).
-    rewrite !mem_map_filter in H. apply orb_true_iff in H as [H|H].
-    + eapply existsb_impl; [|exact H]. intros p Hp. apply andb_true_iff in Hp as [Hp1 Hp2].
-      apply andb_true_iff in Hp2 as [Hp2 _]. now rewrite Hp1, Hp2.
-    + eapply existsb_impl; [|exact H]. intros p Hp. apply andb_true_iff in Hp as [Hp1 Hp2].
-      rewrite Hp1. cbn [andb]. apply orb_true_iff in Hp2 as [Hp2|Hp2].
-      * apply andb_true_iff in Hp2 as [Hp2 _]. now rewrite Hp2.
-      * rewrite Hp2. apply orb_true_r.
+    rewrite !mem_map_filter in H. apply orb_true_iff in H as [H|H];
+      (eapply existsb_impl; [|exact H]); intros p Hp; apply andb_true_iff in Hp as [Hp1 Hp2];
+      apply andb_true_iff in Hp2 as [Hp2 _]; now rewrite Hp1, Hp2.
 Qed.
 
 Theorem exact_names s g :
@@ -86,21 +91,18 @@ Proof.
   rewrite forallb_forall in H1, H2.
   cbn [accept signature_info other_names required_names]. rewrite Hpo.
   assert (Hreq : forallb (fun r => mem r g)
-            (map pname (filter (fun p => is_kind PK p && negb (has_default p)) s)) = true).
+            (map pname (filter (fun p => (is_kind PK p || is_kind KO p) && negb (has_default p)) s)) = true).
   { apply forallb_forall. intros x Hx. apply in_map_iff in Hx as (p & <- & Hp).
     apply filter_In in Hp as [Hp Hf]. apply andb_true_iff in Hf as [Hf1 Hf2].
-    specialize (H1 p Hp). unfold is_kind in Hf1. destruct (pk p); try discriminate.
-    apply negb_true_iff in Hf2. rewrite Hf2 in H1. exact H1. }
+    specialize (H1 p Hp). apply negb_true_iff in Hf2. rewrite Hf2 in H1.
+    unfold is_kind in Hf1. destruct (pk p); try discriminate; exact H1. }
   destruct (has VK s) eqn:Evk; rewrite Hreq; [reflexivity|]. cbn [andb].
   apply forallb_forall. intros x Hx. specialize (H2 x Hx). cbn [orb] in H2.
   rewrite !mem_map_filter. apply existsb_exists in H2 as (p & Hp & Hx2).
   apply andb_true_iff in Hx2 as [Hn Hkind].
-  destruct (is_kind PK p && negb (has_default p)) eqn:E1.
-  - apply orb_true_iff; left. apply existsb_exists. exists p. split; auto. now rewrite Hn, E1.
-  - apply orb_true_iff; right. apply existsb_exists. exists p. split; auto. rewrite Hn. cbn [andb].
-    apply orb_true_iff in Hkind as [Hk|Hk].
-    + rewrite Hk in *. cbn [andb] in E1. apply negb_false_iff in E1. now rewrite E1.
-    + rewrite Hk. apply orb_true_r.
+  destruct (has_default p) eqn:Ed.
+  - apply orb_true_iff; right. apply existsb_exists. exists p. split; auto. now rewrite Hn, Hkind, Ed.
+  - apply orb_true_iff; left. apply existsb_exists. exists p. split; auto. now rewrite Hn, Hkind, Ed.
 Qed.
 
 Theorem codes h c : match handler_invocation h c with
